@@ -1,6 +1,6 @@
 use crate::{
     constants::{
-        LmsTreeIdentifier, D_TOPSEED, HSS_COMPRESSED_USED_LEAFS_SIZE, ILEN, MAX_ALLOWED_HSS_LEVELS,
+        lms_public_key_length, lms_signature_length, LmsTreeIdentifier, D_TOPSEED, HSS_COMPRESSED_USED_LEAFS_SIZE, ILEN, MAX_ALLOWED_HSS_LEVELS,
         MAX_HASH_SIZE, MAX_SEED_LEN, REF_IMPL_MAX_ALLOWED_HSS_LEVELS, REF_IMPL_MAX_PRIVATE_KEY_SIZE,
         SEED_CHILD_SEED, TREE_HEIGHTS, WINTERNITZ_PARAMETERS,
         SEED_SIGNATURE_RANDOMIZER_SEED, TOPSEED_D, TOPSEED_LEN, TOPSEED_SEED, TOPSEED_WHICH,
@@ -227,7 +227,27 @@ fn within_build_limits<H: HashChain>(parameters: &[HssParameter<H>]) -> bool {
             && parameter.get_lms_parameter().get_tree_height() as usize <= TREE_HEIGHTS[level]
             && parameter.get_lmots_parameter().get_winternitz() as usize
                 >= WINTERNITZ_PARAMETERS[level]
-    })
+    }) && hss_signature_length(parameters) <= u16::MAX as usize
+}
+
+/// Length of the HSS signatures of a parameter list. Signatures are kept in `tinyvec::ArrayVec`s,
+/// whose length is a `u16`: a list with longer signatures (seven or eight levels of W1) cannot be
+/// signed with and is refused up front instead of failing after the key has been advanced.
+fn hss_signature_length<H: HashChain>(parameters: &[HssParameter<H>]) -> usize {
+    let hash_size = H::OUTPUT_SIZE as usize;
+    let signed_public_keys = parameters.len().saturating_sub(1) * lms_public_key_length(hash_size);
+    parameters
+        .iter()
+        .map(|parameter| {
+            lms_signature_length(
+                hash_size,
+                parameter.get_lmots_parameter().get_num_winternitz_chains() as usize,
+                parameter.get_lms_parameter().get_tree_height() as usize,
+            )
+        })
+        .sum::<usize>()
+        + signed_public_keys
+        + 4
 }
 
 #[derive(Clone, PartialEq, Eq, Zeroize, ZeroizeOnDrop)]
